@@ -211,6 +211,45 @@ func c13Run(c *Ctx, level string, mk func(rs []rateSpec) c13Bucket) {
 			c.Violation(level+"/over-burst-not-error", sfmt("rates %v: amount %d > burst on a full bucket: admitted=%v delay=%v err=%v", rs, minBurst+1, ok, d, isErr), desc)
 			return
 		}
+		// (v) single-rate only: rejected polls in between do not change what a later request gets. (With several rates a
+		// rejected request may legitimately trigger a whole-token refill in a bucket that is not the refusing one, which
+		// drops that bucket's remainder; with one rate a rejected request adds no token, so nothing may move.)
+		if len(rs) == 1 {
+			tpt := rs[0].Period / time.Duration(rs[0].Average)
+			X, Y := mk(rs), mk(rs)
+			if r.IntN(2) == 0 { // start from a drained state reached at a fractional instant
+				advance(time.Duration(r.Int64N(int64(tpt))))
+			}
+			c13Drain(X, rs[0].Burst)
+			c13Drain(Y, rs[0].Burst)
+			polls := 1 + r.IntN(6)
+			var offs []time.Duration
+			var at time.Duration
+			m := time.Duration(1 + r.IntN(3))
+			horizon := m * tpt
+			for q := 0; q < polls; q++ {
+				step := time.Duration(r.Int64N(int64(horizon-at)/2 + 1))
+				at += step
+				if at >= horizon {
+					break
+				}
+				advance(step)
+				offs = append(offs, at)
+				okY, _, _ := Y.consume(1) // Y polls; X stays silent
+				if okY {
+					// the poll was admitted (a token had accrued): give X the same request so both stay comparable
+					X.consume(1)
+				}
+			}
+			advance(horizon - at)
+			okX, _, _ := X.consume(1)
+			okY, _, _ := Y.consume(1)
+			c.Count("poll_twin_comparisons", 1)
+			if okX != okY {
+				c.Violation(level+"/rejected-polls-cost-refill", sfmt("rate %v: after draining, a source that was polled (and rejected) at offsets %v gets admitted=%v at +%v, a silent twin gets admitted=%v: rejected requests destroyed accrued refill time", rs[0], offs, okY, horizon, okX), desc)
+				return
+			}
+		}
 		if i < 2 {
 			c.Sample(map[string]any{"level": level, "rates": rs, "history_len": len(hist), "available_before_flood": avail, "rejected_injected": k, "drain_twin_a": da, "drain_twin_b": db})
 		}
